@@ -623,8 +623,11 @@ Lemma validate_empty_l proposed current names :
      nom = false /\ forall p, List.In p (c_pods c) -> p <= 0.
 Proof.
   unfold validate_empty.
-  destruct (filter _ current) as [|x l] eqn:E; [discriminate|]. intros [= <-] n Hn.
-  rewrite <- E in Hn. apply in_map_iff in Hn as ([c nom] & <- & Hin). apply filter_In in Hin as [Hin Hb].
+  set (fl := filter (fun cn : cand * bool => mem (c_name (fst cn)) proposed && is_empty (fst cn) && negb (snd cn)) current).
+  intros H. assert (E : names = map (fun cn : cand * bool => c_name (fst cn)) fl).
+  { destruct fl; [discriminate|]. inversion H. reflexivity. }
+  subst names. clear H. intros n Hn.
+  apply in_map_iff in Hn as ([c nom] & <- & Hin). apply filter_In in Hin as [Hin Hb].
   simpl in Hb. rewrite !andb_true_iff, negb_true_iff in Hb. destruct Hb as [[Hm He] Hno].
   exists c, nom. repeat split; try assumption. apply is_empty_iff, He.
 Qed.
